@@ -97,8 +97,11 @@ def _server_loops(ctx: Ctx, model: ExcModel) -> None:
             branch = n.body if pol else n.orelse
             if any(isinstance(x, (ast.Break, ast.Return)) for st in branch for x in walk_scope(st)):
                 exits.append(n)
-        if looped:
-            some(exits, "loop exit taken when the step called finish()", fi)
+        if looped and not exits:
+            ctx.fail("RF-DOM", f"finished-exit-exists:{label}", fi, pc, "no exit of the stream loop is conditional on the step's `finished` flag: a producer that calls finish() is ticked again "
+                     "(the stream does not end when the producer finishes)")
+        elif looped:
+            ctx.hold("RF-DOM", f"finished-exit-exists:{label}", fi, exits[0], "the loop has an exit taken exactly when the step called finish()")
             unflushed = cfg.reach(cfg.done(pc), fdone, include_start=False)
             bad = [n for n in exits if cfg.attempt(n) & unflushed]
             ctx.check(not bad, "RF-DOM", f"flush-precedes-finished-exit:{label}", fi, bad[0] if bad else exits[0],
